@@ -246,7 +246,7 @@ def run(ctx):
     # ---- C19.5 serialisation: each stored header once, in order
     wmh = M.head_writer
     ctx.touch(wmh)
-    iters = [bb for bb, t in wmh.calls() if call_matches(t, r"<impl \[T\]>::iter$|<impl \[common::Header\]>::iter$")]
+    iters = [bb for bb, t in wmh.calls() if call_matches(t, r"<impl \[T\]>::iter$|<impl \[common::Header\]>::iter$|<impl std::iter::IntoIterator for &'a \[T\]>::into_iter$|IntoIterator for &'a std::vec::Vec<T(, A)?>>::into_iter$")]
     nexts = [bb for bb, t in wmh.calls() if call_matches(t, r"slice::Iter<.*> as std::iter::Iterator>::next$")]
     ok = len(iters) == 1 and len(nexts) == 1 and wmh.in_loop(nexts[0]) and not origin_has_call(wmh.origin(wmh.term(nexts[0])["args"][0]), r"::rev$|::skip|::filter|::take")
     ctx.ob("C19.5", "%s|iterates-all-in-order" % wmh.id, "headers are written by a plain forward iteration over the list", ok, "%s:%d" % (wmh.file, wmh.line))
